@@ -188,7 +188,8 @@ impl Prop for C01 {
         let pf = &parsed[0];
         for (nm, side) in [(&pf.old_name, "old"), (&pf.new_name, "new")] {
             if let Some(n) = nm {
-                let s = String::from_utf8_lossy(n).into_owned();
+                // names are paths: a doubled slash or a "." component spells the same path
+                let s = String::from_utf8_lossy(n).split('/').filter(|c| !c.is_empty() && *c != ".").collect::<Vec<_>>().join("/");
                 if s != case.path && s != format!("{}.orig", case.path) {
                     return Verdict::Fail(format!("{} name after -p{} is {:?}, expected {:?}", side, case.strip, s, case.path));
                 }
@@ -257,6 +258,10 @@ impl Prop for C01 {
                 let mut args = ws::base_args(threads);
                 args.push("-a".into());
                 args.push("-q".into());
+                if case.patch.len() % 4 == 1 {
+                    // the kept lines of A are then slices of a mapping of the very file that is replaced
+                    args.push("--mmap".into());
+                }
                 if case.patch.len() % 3 == 0 {
                     // producing the quilt backups rolls the application back in memory: it must still succeed
                     args.push("--backup".into());
@@ -292,7 +297,8 @@ impl Prop for C01 {
         let b_nonempty = case.b.as_ref().map_or(false, |x| !x.is_empty());
         if case.context == 0 && a_nonempty && b_nonempty && (msg.contains("CreatingFileThatExists") || msg.contains("DeletingFileThatDoesNotMatch")) {
             if let inproc::Parsed::Ok(v) = inproc::parse_summary(&case.patch, case.strip) {
-                if v.len() == 1 && v[0].hunks.len() == 1 && v[0].kind != "Modify" {
+                // exactly the recorded shape: the empty side is located at line 0 ("-0,0" / "+0,0")
+                if v.len() == 1 && v[0].hunks.len() == 1 && v[0].kind != "Modify" && ((v[0].hunks[0].old.is_empty() && v[0].hunks[0].old_line == 0) || (v[0].hunks[0].new.is_empty() && v[0].hunks[0].new_line == 0)) {
                     return Some("KF-C01-ctx0-single-pure-hunk");
                 }
             }
